@@ -71,6 +71,8 @@ def search(chk, broken):
         shot, _ = sg.gen_shot(pbc, rng, flat=True)
         R = rng.choice([600.0, 1500.0, 2400.0])
         step = rng.choice([50.0, 100.0, R / 10, rng.uniform(20, 200)])
+        if rng.random() < 0.3:      # a recording step below the maximum integration step vs a multiple of it
+            R, step = 48.0, rng.choice([0.25, 0.375, 0.125])
         base, why = fire(pbc, calc, shot, R, step)
         if why or len(base) < 3:
             continue
